@@ -2,7 +2,11 @@ use std::borrow::Cow;
 use std::collections::hash_map::Entry;
 use std::collections::{BTreeMap, HashMap, HashSet, VecDeque};
 use std::ops::Range;
-use std::panic::{catch_unwind, AssertUnwindSafe};
+#[cfg(not(locustdb_verif))]
+use std::panic::catch_unwind;
+#[cfg(locustdb_verif)]
+use locustdb_simrt::catch_unwind;
+use std::panic::AssertUnwindSafe;
 #[cfg(not(locustdb_verif))]
 use std::sync::atomic::{AtomicBool, Ordering};
 #[cfg(locustdb_verif)]
